@@ -439,3 +439,62 @@ def validate_traces(sc, d, module, cfg, trace_path, shards=None, timeout=1800, h
         states += res.distinct
         gen += res.generated
     return events, traces, rejects, states, gen
+
+
+# ---------------------------------------------------------------------------
+# running the real code on many cases, robust to crashes and hangs
+
+def harness_map(sc, vh, cmd, items, chunk=20000, base_timeout=30.0, per_item=0.002, extra_args=()):
+    """Run `vh <cmd> <in> <out>` over items (one JSON line each, one JSON result line each).
+    A chunk that crashes (fatal error, e.g. stack exhaustion) or exceeds its time budget is
+    bisected until the single offending item is isolated; that item's result is
+    {"crash": "..."} or {"hang": True}.  Budget: base_timeout + per_item * len (generous:
+    the normal cost is microseconds per item)."""
+    from concurrent.futures import ThreadPoolExecutor
+    results = [None] * len(items)
+    counter = [0]
+
+    def run_range(a, b):
+        counter[0] += 1
+        tag = "%s-%d-%d-%d" % (cmd, a, b, counter[0])
+        fin = sc.path("hm-%s.in" % tag)
+        fout = sc.path("hm-%s.out" % tag)
+        write_ndjson(fin, items[a:b])
+        status = "ok"
+        detail = ""
+        try:
+            rc, out = run([vh, cmd, fin, fout] + list(extra_args), timeout=base_timeout + per_item * (b - a))
+            if rc != 0:
+                status, detail = "crash", out[-1500:]
+        except ToolFailure as e:
+            status, detail = "hang", str(e)[:200]
+        got = []
+        if status == "ok":
+            got = read_ndjson(fout)
+            if len(got) != b - a:
+                status, detail = "crash", "short output: %d of %d" % (len(got), b - a)
+        for f in (fin, fout):
+            try:
+                os.remove(f)
+            except OSError:
+                pass
+        if status == "ok":
+            results[a:b] = got
+            return None
+        return status, detail
+
+    def solve(a, b):
+        r = run_range(a, b)
+        if r is None:
+            return
+        if b - a == 1:
+            results[a] = {"crash": r[1]} if r[0] == "crash" else {"hang": True, "detail": r[1]}
+            return
+        m = (a + b) // 2
+        solve(a, m)
+        solve(m, b)
+
+    ranges = [(a, min(a + chunk, len(items))) for a in range(0, len(items), chunk)]
+    with ThreadPoolExecutor(max_workers=NCPU) as ex:
+        list(ex.map(lambda r: solve(*r), ranges))
+    return results
